@@ -96,7 +96,7 @@ func runC16(c *Ctx) {
 		if cl, ok := in.(*ssa.Call); ok && calleeName(&cl.Call) == "builtin:append" {
 			if _, el, ok := appendedElems(cl); ok && len(el) == 1 {
 				if k, isC := constOf(el[0]); isC && k == childVar+"=1" {
-					if strings.HasPrefix(describe(argsOf(cl)[0]), "os.Environ()") {
+					if strings.HasPrefix(describeArg(cl, 0), "os.Environ()") {
 						envOK = true
 					}
 				}
@@ -114,7 +114,7 @@ func runC16(c *Ctx) {
 				return "mode", true
 			}
 			if e, ok := v.(*ssa.Extract); ok && e.Index == 1 {
-				if cl, ok := e.Tuple.(*ssa.Call); ok && calleeName(&cl.Call) == "os.Stat" && strings.Contains(describe(argsOf(cl)[0]), "LocalDir(") {
+				if cl, ok := e.Tuple.(*ssa.Call); ok && calleeName(&cl.Call) == "os.Stat" && strings.Contains(describeArg(cl, 0), "LocalDir(") {
 					stat = cl
 					return "statErr", true
 				}
@@ -269,11 +269,11 @@ func runC16(c *Ctx) {
 	r.Check("C16.token", "acquireUploadToken/creates the token with OpenFile", m.Pos(acquire.Pos()), open != nil, "the token must be taken by os.OpenFile")
 	if open != nil {
 		r.Check("C16.token", "acquireUploadToken/exclusive create", m.Pos(open.Pos()), m.openFlagsHave(&open.Call, "O_CREATE", "O_EXCL"), "O_CREATE|O_EXCL: only one of several concurrent starters can succeed")
-		tokName := describe(argsOf(open)[0])
+		tokName := describeArg(open, 0)
 		r.Check("C16.token", "acquireUploadToken/token path", m.Pos(open.Pos()), strings.Contains(tokName, "LocalDir(") && strings.Contains(tokName, `"upload.token"`), "got "+tokName)
 		var stat *ssa.Call
 		for _, cs := range callsIn(acquire, "os.Stat") {
-			if describe(argsOf(cs)[0]) == tokName {
+			if describeArg(cs, 0) == tokName {
 				stat = cs.(*ssa.Call)
 			}
 		}
@@ -319,7 +319,7 @@ func runC16(c *Ctx) {
 			fb.namer = namer
 			got := fb.reach(cs.Block())
 			ok2, why, _ := implies(got, bAnd{[]BExpr{bBool{"isnil(statErr)"}, mkOrd("age", ">=", "86400000000000")}})
-			r.Check("C16.token", "acquireUploadToken/stale token removed only when old", m.Pos(cs.Pos()), ok2 && describe(argsOf(cs)[0]) == tokName, "os.Remove(token) ⇒ token exists ∧ age >= 24h; "+why)
+			r.Check("C16.token", "acquireUploadToken/stale token removed only when old", m.Pos(cs.Pos()), ok2 && describeArg(cs, 0) == tokName, "os.Remove(token) ⇒ token exists ∧ age >= 24h; "+why)
 		}
 		r.Check("C16.token", "acquireUploadToken/reads the token's age", m.Pos(acquire.Pos()), stat != nil, "os.Stat(token) must be consulted")
 	}
@@ -329,7 +329,7 @@ func runC16(c *Ctx) {
 			continue
 		}
 		for _, e := range directEffects(fn) {
-			if e.Kind == effFS && strings.Contains(describe(argsOf(e.Call)[0]), `"upload.token"`) {
+			if e.Kind == effFS && strings.Contains(describeArg(e.Call, 0), `"upload.token"`) {
 				r.Check("C16.token", "token touched in "+fname(fn), m.Pos(e.Call.Pos()), false, "only acquireUploadToken may create or remove the token")
 			}
 		}
